@@ -24,6 +24,14 @@ impl<K, V> BTreeMap<K, V> {
     /// BTreeMap::len
     #[verifier::external_body]
     pub fn len(&self) -> (r: usize) ensures r as nat == self.view().dom().len() { unimplemented!() }
+    /// BTreeMap::insert: the key now maps to the value (the previous value, if any, is returned)
+    #[verifier::external_body]
+    pub fn insert(&mut self, k: K, v: V) -> (r: Option<V>)
+        ensures final(self).view() == old(self).view().insert(k, v), r.is_some() <==> old(self).view().dom().contains(k), r.is_some() ==> r->Some_0 == old(self).view()[k]
+    { unimplemented!() }
+    /// BTreeMap::contains_key
+    #[verifier::external_body]
+    pub fn contains_key(&self, k: &K) -> (r: bool) ensures r == self.view().dom().contains(*k) { unimplemented!() }
 }
 impl<'a, K, T> Entry<'a, K, Vec<T>> {
     pub open spec fn vx_key(self) -> K { match self { Entry::Vacant(v) => v.key, Entry::Occupied(o) => o.key } }
@@ -46,6 +54,11 @@ pub open spec fn btm_sorted_entries<V>(m: Map<ChainEpoch, V>, r: Seq<(ChainEpoch
     &&& forall|i: int| 0 <= i < r.len() ==> m.dom().contains(#[trigger] r[i].0) && r[i].1 == m[r[i].0]
     &&& forall|i: int, j: int| 0 <= i < j < r.len() ==> (#[trigger] r[i]).0 < (#[trigger] r[j]).0
     &&& forall|k: ChainEpoch| m.dom().contains(k) ==> exists|i: int| 0 <= i < r.len() && #[trigger] r[i].0 == k
+}
+impl BTreeMap<ChainEpoch, bool> {
+    /// `map.iter()` over a BTreeMap<ChainEpoch, bool> (the loop `for (&expiration, _) in declared_expirations.iter()`): the keys in increasing order (with their values)
+    #[verifier::external_body]
+    pub fn vx_iter_sorted(&self) -> (r: Vec<(ChainEpoch, bool)>) ensures btm_sorted_entries(self.view(), r@) { unimplemented!() }
 }
 impl<V> BTreeMap<ChainEpoch, V> {
     /// `map.into_iter()` (consumed to its end): every key exactly once, in increasing key order, with its value
